@@ -8,9 +8,9 @@ import ast
 
 from ..core import Report, Finding, AnalysisError
 from ..facts import Facts
-from ..astutil import unparse, dotted, walk_no_nested
+from ..astutil import unparse, dotted
 from ..callgraph import CallGraph
-from ..prov import Prov, DIRKINDS, coarse, is_cwd_expr
+from ..prov import Prov, DIRKINDS, coarse, is_cwd_expr, walk_fn
 from ..pathwalk import MUTATORS, show
 from ..hwalk import loop_paths_h, function_paths
 from ..immsites import find_all
@@ -70,7 +70,7 @@ def check_sinks(rep, facts, cg, pv, rule, reach):
                       'working directory, not against the including file or the -i directories'.format(name, unparse(arg), '/'.join(sorted(ks & BAD))),
                       line=node.lineno))
     for q in reach:
-        for n in walk_no_nested(cg.funcs[q]):
+        for n in walk_fn(cg.funcs[q]):
             if is_cwd_expr(n):
                 g = pv.cwd_guard(q, n)
                 if g == 'unknown':
@@ -88,7 +88,7 @@ def caller_object_params(pv, cg, reach, seeds):
     todo = list(seeds)
     while todo:
         q, p = todo.pop()
-        for n in walk_no_nested(cg.funcs[q]):
+        for n in walk_fn(cg.funcs[q]):
             if not isinstance(n, ast.Call):
                 continue
             for callee in pv.callees(q, n):
@@ -119,7 +119,7 @@ def check_reader(rep, facts, cg, pv, reach):
     # R14.2 recursion: the included file is read by the path the search returned, as a file, with the caller's own -i list
     n_rec = 0
     for q in sorted(pv.reach('read_lines')):
-        for c in walk_no_nested(cg.funcs[q]):
+        for c in walk_fn(cg.funcs[q]):
             if not (isinstance(c, ast.Call) and 'read_lines' in pv.callees(q, c)):
                 continue
             n_rec += 1
@@ -157,7 +157,7 @@ def check_reader(rep, facts, cg, pv, reach):
     # R14.2.adjacent: every include search ranges over the -i directories and the directory of the including file
     n_search = 0
     for q in reach:
-        for n in walk_no_nested(cg.funcs[q]):
+        for n in walk_fn(cg.funcs[q]):
             first = None
             if isinstance(n, ast.Call) and dotted(n.func) == 'os.path.join' and len(n.args) > 1 and not isinstance(n.args[0], ast.Starred):
                 first = n.args[0]
@@ -346,7 +346,7 @@ def check_cli(rep, facts, cg, pv):
         raise AnalysisError('anchor vanished: asm.cli_main')
     calls = []
     for q in sorted(pv.reach('cli_main')):
-        for n in walk_no_nested(cg.funcs[q]):
+        for n in walk_fn(cg.funcs[q]):
             if isinstance(n, ast.Call) and 'assemble' in pv.callees(q, n):
                 calls.append((q, n))
     if not calls:
